@@ -19,6 +19,7 @@ SIGS = [
     (((1, 0), 2, 2), ((0, 0), 1, 0)),
     (((0, 0), 1, 0),),
     (((2, 0), 1, 1), ((0, 1), 2, 0), ((1, 1), 0, 1)),
+    (((0, 0), 3, 1), ((1, 0), 1, 0)),                        # three dynamic channels: channel-major / time-major interleaving
 ]
 
 
